@@ -513,6 +513,13 @@ package mcp
 //@ func httpServerHandler.handleGet
 //@   requires status(w) == 0
 //@   modifies *, status(w), hval
+//@   ensures[C03,C06 every-get-gets-a-status] status(w) != 0
+//@   ensures[C04 listening-streams-refused-when-disabled-or-stateless] (!h.enableGetSSE || h.isStateless) ==> status(w) == 405
+//@   ensures[C04 listening-stream-without-session-id-is-400] h.enableGetSSE && !h.isStateless && old(sidIn(r)) == "" ==> status(w) == 400
+//@   ensures[C04 listening-stream-for-unknown-session-is-404] h.enableGetSSE && !h.isStateless && old(sidIn(r)) != "" && !old(live(sidIn(r))) ==> status(w) == 404
+//@   before call Flush#1 assert[C11 stream-registered-before-its-headers-are-flushed] (session.GetID() in h.getSSEConnections) && h.getSSEConnections[session.GetID()] == conn && held(conn.writeLock) == 2
+//@   before call (*sync.RWMutex).Unlock#1 assert[C11 registration-replaces-only-this-session] forall k string :: k != session.GetID() ==> ((k in h.getSSEConnections) <==> atlock(k in h.getSSEConnections)) && h.getSSEConnections[k] == atlock(h.getSSEConnections[k])
+//@   before call (*sync.RWMutex).Unlock#2 assert[C11 a-stream-that-ends-removes-only-itself] forall k string :: (k != session.GetID() || atlock(h.getSSEConnections[k]) != conn) ==> ((k in h.getSSEConnections) <==> atlock(k in h.getSSEConnections)) && h.getSSEConnections[k] == atlock(h.getSSEConnections[k])
 
 // Configuration of the HTTP handler is fixed once the handler is built (C13: no request path can park
 // request-derived state in it; C03/C04: the mode flags do not change under a request).
@@ -526,7 +533,7 @@ package mcp
 
 //@ func jsonResponder.respond
 //@   modifies *, status(w), hval
-//@   ensures[C03 json-responder-always-writes-a-status] status(w) != 0
+//@   ensures[C03 json-responder-writes-a-status-unless-it-fails] ret == nil ==> status(w) != 0
 //@   ensures[C04 no-session-header-when-stateless] r.isStateless ==> hval(w.Header(), "Mcp-Session-Id") == old(hval(w.Header(), "Mcp-Session-Id"))
 //@ func sseResponder.respond
 //@   modifies *, status(w), hval
@@ -538,3 +545,7 @@ package mcp
 //@ type sseResponder
 //@   init newSSEResponder, withSSEStatelessMode
 //@   final[C04] isStateless
+
+//@ func httpServerHandler.respondEncodingFailure
+//@   modifies *, status(w), hval
+//@   ensures[C03 encoding-failure-is-answered] status(w) != 0
